@@ -246,6 +246,23 @@ type Gen struct {
 	// once per generator (separators, escapes and escape look-alikes, non-ASCII)
 	HostileKeys float64
 	hostile     []string
+	// Long: probability that a primitive value is a string of 1.2-6 KiB (operation bodies
+	// beyond the sizes of buffers, log-line limits and inline storage)
+	Long float64
+}
+
+// LongStr returns a string of 1.2-6 KiB: letters with hostile fragments and a unique tag.
+func (g *Gen) LongStr() string {
+	n := 1200 + g.R.Intn(4800)
+	b := make([]byte, 0, n+64)
+	for len(b) < n {
+		if g.R.Intn(40) == 0 {
+			b = append(b, hostileStrings[g.R.Intn(len(hostileStrings))]...)
+			continue
+		}
+		b = append(b, byte('a'+g.R.Intn(26)))
+	}
+	return string(b) + g.Tag()
 }
 
 // NewGen returns a generator with the default conflict-dense shaping.
@@ -263,6 +280,9 @@ func (g *Gen) Prim() interface{} {
 	}
 	if g.Exotic > 0 && g.R.Float64() < g.Exotic {
 		return g.GoVal(g.NilField)
+	}
+	if g.Long > 0 && g.R.Float64() < g.Long {
+		return g.LongStr()
 	}
 	switch g.R.Intn(8) {
 	case 0:
